@@ -107,7 +107,7 @@ func (p *BaseMySQLDataProcessor) encodeBinary(ctx context.Context, data []byte, 
 		encoded = make([]byte, 1)
 		intValue, err := strconv.ParseInt(utils.BytesToString(data), 10, 8)
 		if err != nil {
-			return nil, nil, err
+			return nil, nil, utils.ErrorWithoutValue(err)
 		}
 		err = binary.Write(bytes.NewBuffer(encoded[:0]), binary.LittleEndian, int8(intValue))
 		return ctx, encoded, err
@@ -116,7 +116,7 @@ func (p *BaseMySQLDataProcessor) encodeBinary(ctx context.Context, data []byte, 
 		encoded = make([]byte, 2)
 		intValue, err := strconv.ParseInt(utils.BytesToString(data), 10, 16)
 		if err != nil {
-			return nil, nil, err
+			return nil, nil, utils.ErrorWithoutValue(err)
 		}
 		err = binary.Write(bytes.NewBuffer(encoded[:0]), binary.LittleEndian, int16(intValue))
 		return ctx, encoded, err
@@ -125,7 +125,7 @@ func (p *BaseMySQLDataProcessor) encodeBinary(ctx context.Context, data []byte, 
 		encoded = make([]byte, 4)
 		intValue, err := strconv.ParseInt(utils.BytesToString(data), 10, 32)
 		if err != nil {
-			return nil, nil, err
+			return nil, nil, utils.ErrorWithoutValue(err)
 		}
 		err = binary.Write(bytes.NewBuffer(encoded[:0]), binary.LittleEndian, int32(intValue))
 		return ctx, encoded, err
@@ -134,7 +134,7 @@ func (p *BaseMySQLDataProcessor) encodeBinary(ctx context.Context, data []byte, 
 		encoded = make([]byte, 8)
 		intValue, err := strconv.ParseInt(utils.BytesToString(data), 10, 64)
 		if err != nil {
-			return nil, nil, err
+			return nil, nil, utils.ErrorWithoutValue(err)
 		}
 		err = binary.Write(bytes.NewBuffer(encoded[:0]), binary.LittleEndian, int64(intValue))
 		return ctx, encoded, err
@@ -143,7 +143,7 @@ func (p *BaseMySQLDataProcessor) encodeBinary(ctx context.Context, data []byte, 
 		encoded = make([]byte, 4)
 		floatValue, err := strconv.ParseFloat(utils.BytesToString(data), 32)
 		if err != nil {
-			return nil, nil, err
+			return nil, nil, utils.ErrorWithoutValue(err)
 		}
 		err = binary.Write(bytes.NewBuffer(encoded[:0]), binary.LittleEndian, float32(floatValue))
 		return ctx, encoded, err
@@ -152,7 +152,7 @@ func (p *BaseMySQLDataProcessor) encodeBinary(ctx context.Context, data []byte, 
 		encoded = make([]byte, 8)
 		floatValue, err := strconv.ParseFloat(utils.BytesToString(data), 64)
 		if err != nil {
-			return nil, nil, err
+			return nil, nil, utils.ErrorWithoutValue(err)
 		}
 		err = binary.Write(bytes.NewBuffer(encoded[:0]), binary.LittleEndian, floatValue)
 		return ctx, encoded, err
